@@ -144,6 +144,9 @@ package ch
 //@   ensures err == nil ==> c != nil {client-on-success}
 //@   ensures err == nil ==> c.writer != nil && c.compressor != nil {writer-and-compressor-always-set}
 //@   ensures err != nil ==> c == nil {never-a-usable-client-on-failure}
+//@ -- the handshake is bounded by the handshake timeout (not the dial timeout)
+//@ callsite context.WithTimeout
+//@   assert arg1 == opt.HandshakeTimeout [C13] {handshake-bounded-by-HandshakeTimeout}
 
 //@ -- a connection the library itself dialed is closed when connecting fails
 //@ contract Dial(ctx, opt) (c, err) props(C11,C13)
@@ -195,8 +198,16 @@ package ch
 //@   ensures err == nil && len(q.Input) > 0 ==> c.blanks == old(c.blanks) + 1 {exactly-one-terminator-on-success}
 //@   ensures err != nil ==> c.blanks == old(c.blanks) {no-terminator-after-a-failure}
 //@   ensures wRI(c.writer)
+//@ -- the caller's pre-filled input is the first block: the callback is asked for an initial block
+//@ -- only when there are no rows yet (otherwise it would overwrite rows that were never sent)
+//@ callsite value:f#1
+//@   assert rows == 0 [C02,C09] {initial-fetch-only-when-no-rows-were-provided}
 //@ callsite value:f#2
 //@   assert len(c.writer.vec) == 0 && c.writer.bufOffset == 0 && len(c.writer.buf.Buf) == 0 {block-flushed-before-the-callback-runs-again}
+//@ -- no block is staged once the query's context is dead (after a server exception the client
+//@ -- stays open: a block encoded then would be sent with the NEXT request), C04
+//@ callsite (*Client).encodeBlock
+//@   assert !ctx.cancelled [C04,C09] {no-block-is-encoded-once-the-context-is-dead}
 //@ callsite encodeBlankBlock
 //@   assert c.blanks == old(c.blanks) {terminator-is-the-last-thing-sent}
 //@ -- end of input is recognised through errors.Is (so a wrapped io.EOF counts), at the initial fetch
@@ -287,6 +298,10 @@ package ch
 //@   ensures err == nil ==> code == 5 [C03] {nil-only-on-end-of-stream}
 //@ callsite (*Client).decodeBlock
 //@   assert code == 1 || code == 7 [C03] {blocks-only-for-data-and-totals-packets}
+//@ -- the receiver waits for a packet only after it found the context alive in the same iteration (a
+//@ -- read timeout sends it back to that check, so a cancelled query is noticed within one timeout), C10
+//@ callsite (*Client).packet
+//@   assert !ctx.cancelled [C04,C10] {a-packet-is-awaited-only-after-the-context-was-found-alive}
 //@ callsite (*Client).handlePacket
 //@   assert code != 1 && code != 7 && code != 5 [C03] {other-packets-go-to-handlePacket}
 //@ -- the flag that suppresses cancel-and-close is raised only for an error that IS a server
